@@ -2,6 +2,7 @@ import FitModel.Items
 import FitModel.Gen.Profile
 import FitProofs.ExpandEq
 import FitProofs.ExpandEvent
+import FitProofs.RunningSum
 /-!
   C18 — component fields expand per profile, with per-file accumulation.
 
@@ -318,6 +319,77 @@ example :
        ((expand Gen.profile m {}).1 == (XSpec.expandSpec codeQuirks Gen.profile m {}).1) &&
        (match pm.idx "Distance" with
         | some di => (expand Gen.profile m {}).1.vals[di]? == some (Val.u 0xB3)
+        | none => false)
+     | none => false) = true := by decide +kernel
+
+/-! ### the accumulated distance of a file's records (FitProofs/RunningSum.lean) -/
+
+/-- the record message of the regenerated profile has the three fields the distance run needs -/
+theorem gen_record_names : ∃ pm ci si di, Gen.profile.msg? mnRecord = some pm ∧ DistNames pm ci si di ∧
+    di < pm.invalid.length := by
+  cases h : Gen.profile.msg? mnRecord with
+  | none => exact absurd h (by decide +kernel)
+  | some pm =>
+    have hk : (match Gen.profile.msg? mnRecord with
+        | some pm => (pm.idx "CompressedSpeedDistance").isSome && (pm.idx "Speed").isSome &&
+            (match pm.idx "Distance" with | some di => decide (di < pm.invalid.length) | none => false)
+        | none => false) = true := by decide +kernel
+    rw [h] at hk
+    simp only [Bool.and_eq_true] at hk
+    obtain ⟨⟨h1, h2⟩, h3⟩ := hk
+    obtain ⟨ci, hci⟩ := Option.isSome_iff_exists.mp h1
+    obtain ⟨si, hsi⟩ := Option.isSome_iff_exists.mp h2
+    cases hd : pm.idx "Distance" with
+    | none => rw [hd] at h3; cases h3
+    | some di =>
+      rw [hd] at h3
+      exact ⟨pm, ci, si, di, rfl, ⟨hci, hsi, hd⟩, by simpa using h3⟩
+
+/-- **Accumulated distance = running sum of rollover-corrected deltas.** The records of a file,
+    each carrying compressed_speed_distance with raw distance values `ds` (as the generated code
+    extracts them: finding D10 loses the top nibble), stored one after another while the
+    package-level accumulator is `g.dist`: the distance fields of the stored records are the running
+    sums, modulo 2^32, of the 12-bit rollover-corrected deltas of `ds`, on top of the value of the
+    accumulator in force (`effDist g`). If no earlier file left an accumulator behind, that is 0 with
+    last raw value 0 — the sum "since the start of the same file"; otherwise the run continues the
+    earlier file's (finding D12, `accumulator_lifetime_counterexample`). -/
+theorem record_distance_running_sum (pm : PMsg) (hpm : Gen.profile.msg? mnRecord = some pm) (ci si di : Nat)
+    (hn : DistNames pm ci si di) (ms : List Msg) (hms : ∀ m ∈ ms, m.num = mnRecord ∧ di < m.vals.length)
+    (ds : List Nat) (hraw : ms.map (csdRaw pm) = ds.map some) (g : Globals)
+    (hmask : g.dist.present = true → g.dist.mask = 2 ^ 12 - 1) :
+    (expandList Gen.profile g ms).1.map (fun m => m.vals[di]?) =
+      ((prefixSums (effDist g).value (deltas 12 (effDist g).last ds)).map (· % 2 ^ 32)).map fun v => some (Val.u v) :=
+  Fit.record_distance_running_sum Gen.profile pm hpm ci si di hn ms hms ds hraw g hmask
+
+/-- from a fresh process: the sums start at 0 and the first delta is the first raw value -/
+theorem record_distance_from_zero (pm : PMsg) (hpm : Gen.profile.msg? mnRecord = some pm) (ci si di : Nat)
+    (hn : DistNames pm ci si di) (ms : List Msg) (hms : ∀ m ∈ ms, m.num = mnRecord ∧ di < m.vals.length)
+    (ds : List Nat) (hraw : ms.map (csdRaw pm) = ds.map some) :
+    (expandList Gen.profile {} ms).1.map (fun m => m.vals[di]?) =
+      ((prefixSums 0 (deltas 12 0 ds)).map (· % 2 ^ 32)).map fun v => some (Val.u v) :=
+  record_distance_running_sum pm hpm ci si di hn ms hms ds hraw {} (fun h => by cases h)
+
+/-- the records of a file in general (some without compressed_speed_distance): `DistRun` -/
+theorem record_distance_run (pm : PMsg) (hpm : Gen.profile.msg? mnRecord = some pm) (ci si di : Nat)
+    (hn : DistNames pm ci si di) (ms : List Msg) (hms : ∀ m ∈ ms, m.num = mnRecord ∧ di < m.vals.length) (g : Globals) :
+    DistRun pm di (effDist g) ms (expandList Gen.profile g ms).1 :=
+  expandList_dist Gen.profile pm hpm ci si di hn ms hms g
+
+set_option maxRecDepth 100000 in
+/-- non-vacuity, evaluated: three records with raw distances 0x0F0 → 0x0F8 → 0x003 (the low byte
+    the generated code keeps: 0xF0, 0xF8, 0x03) from a fresh process give 0xF0, 0xF8 and, across the
+    12-bit rollover, 0xF8 + 0xF0B = 0x1003 -/
+example :
+    (match Gen.profile.msg? mnRecord with
+     | some pm =>
+       let mk (b1 b2 : Nat) : Msg := ⟨mnRecord, (pm.invalid.zipIdx.map fun (v, i) =>
+         if pm.idx "CompressedSpeedDistance" = some i then Val.us (some [0x00, b1, b2]) else v)⟩
+       let ms := [mk 0x00 0x0F, mk 0x80 0x0F, mk 0x30 0x00]
+       (ms.map (csdRaw pm) == [some 0xF0, some 0xF8, some 0x03]) &&
+       (match pm.idx "Distance" with
+        | some di => (expandList Gen.profile {} ms).1.map (fun m => m.vals[di]?) ==
+            [some (Val.u 0xF0), some (Val.u 0xF8), some (Val.u 0x1003)] &&
+            ((prefixSums 0 (deltas 12 0 [0xF0, 0xF8, 0x03])).map (· % 2 ^ 32) == [0xF0, 0xF8, 0x1003])
         | none => false)
      | none => false) = true := by decide +kernel
 
